@@ -23,11 +23,21 @@ class PynencError(Exception):
 
     def _to_json_dict(self) -> dict[str, Any]:
         """:return: a json serializable dictionary"""
+        if not self.__dict__ and self.args:
+            # An error without fields of its own (e.g. RetryError("reason")) keeps its arguments
+            return {
+                "args": [
+                    a if isinstance(a, str | int | float | bool | None) else str(a)
+                    for a in self.args
+                ]
+            }
         return self.__dict__
 
     @classmethod
     def _from_json_dict(cls, json_dict: dict[str, Any]) -> "PynencError":
         """:return: a new error from the serialized json compatible dictionary"""
+        if set(json_dict) == {"args"}:
+            return cls(*json_dict["args"])
         return cls(**json_dict)
 
     def to_json(self) -> str:
